@@ -2,6 +2,7 @@ package props
 
 import (
 	"fmt"
+	"math/big"
 	"strconv"
 	"strings"
 
@@ -235,6 +236,32 @@ func init() {
 				for _, v := range []int64{max, max + 1, max - 1, 1<<62 + 5, 1<<63 - 1} {
 					c15CheckInt(t, v, max)
 				}
+				// numerals whose value × 10^8 wraps a 63- or 64-bit register to something small: integral
+				// parts just above k·2^63/10^8 and k·2^64/10^8 (all far beyond the supply: must be refused),
+				// alone and with fractions
+				two63 := new(big.Int).Lsh(big.NewInt(1), 63)
+				two64 := new(big.Int).Lsh(big.NewInt(1), 64)
+				e8 := big.NewInt(100000000)
+				wraps := 0
+				for _, m := range []*big.Int{two63, two64} {
+					for k := int64(1); k <= 40; k++ {
+						base := new(big.Int).Mul(m, big.NewInt(k))
+						base.Div(base, e8)
+						for d := int64(-3); d <= 40; d++ {
+							ip := new(big.Int).Add(base, big.NewInt(d)).String()
+							c15CheckStr(t, ip, umax)
+							c15CheckStr(t, ip+".5", umax)
+							c15CheckStr(t, ip+".00000001", umax)
+							wraps += 3
+						}
+						for n := 0; n < 60; n++ {
+							ip := new(big.Int).Add(base, big.NewInt(int64(t.R.Intn(3000000)))).String()
+							c15CheckStr(t, ip, umax)
+							wraps++
+						}
+					}
+				}
+				t.Count("numerals_near_register_wraparound", wraps)
 				return
 			}
 			i -= 13
